@@ -264,7 +264,11 @@ func (r *ReconcileSuggestion) ReconcileSuggestion(instance *suggestionsv1beta1.S
 		return err
 	}
 
-	if err := r.List(context.TODO(), trials, client.InNamespace(instance.Namespace), client.MatchingLabels(util.TrialLabels(experiment))); err != nil {
+	// Trials are selected by the experiment name label only, like the Experiment controller does:
+	// the other labels of a Trial may differ from the Experiment's current ones
+	// (labels attached by the algorithm to an assignment, Experiment labels changed after the Trial was created).
+	trialLabels := map[string]string{consts.LabelExperimentName: experiment.Name}
+	if err := r.List(context.TODO(), trials, client.InNamespace(instance.Namespace), client.MatchingLabels(trialLabels)); err != nil {
 		return err
 	}
 	// TODO (andreyvelich): Do we want to run ValidateAlgorithmSettings when Experiment is restarting?
